@@ -49,3 +49,16 @@ func VerifCheckForDRM(ra io.ReaderAt, size int64) (drm bool, zipErr error) {
 	}
 	return errors.Is(checkForDRM(zr), ErrDRMProtected), nil
 }
+
+// VerifFindNavigation exposes (*Reader).findNavDocument and (*Reader).findNCX on
+// a manifest: the IDs of the items they pick ("" = none).
+func VerifFindNavigation(manifest map[string]ManifestItem) (navID, ncxID string) {
+	r := &Reader{pkg: &Package{Manifest: manifest}}
+	if it := r.findNavDocument(); it != nil {
+		navID = it.ID
+	}
+	if it := r.findNCX(); it != nil {
+		ncxID = it.ID
+	}
+	return navID, ncxID
+}
